@@ -24,7 +24,7 @@ use hyperqueue::server::bootstrap::{ServerConfig, get_client_session, init_hq_se
 use hyperqueue::server::event::payload::EventPayload;
 use hyperqueue::transfer::connection::ClientSession;
 use hyperqueue::transfer::messages::{
-    CancelRequest, ForgetJobRequest, FromClientMessage, IdSelector, JobDescription, SubmitResponse, ToClientMessage,
+    AutoAllocRequest, AutoAllocResponse, CancelRequest, ForgetJobRequest, FromClientMessage, IdSelector, JobDescription, SubmitResponse, ToClientMessage,
 };
 use serde::{Deserialize, Serialize};
 use serde_json::json;
@@ -44,6 +44,12 @@ pub enum Op {
     CancelForgetNewest,
     /// flush the journal and keep a copy of it: what a crash at this point leaves behind
     SnapshotJournal,
+    /// create an allocation queue (`hq alloc add`), through the real client request
+    AddQueue,
+    /// remove the newest queue of this start (forced)
+    RemoveNewestQueue,
+    /// a real tako worker (`tako::worker::run_worker`) registers over TCP and disconnects again
+    ConnectWorker,
 }
 
 #[derive(Serialize, Deserialize, Clone, Debug)]
@@ -69,12 +75,15 @@ pub fn gen_case(seed: u64) -> Vec<Start> {
                 None
             };
             let mut ops = Vec::new();
-            for _ in 0..rng.range(0, 4) {
-                ops.push(match rng.below(10) {
-                    0..=4 => Op::Submit,
-                    5 | 6 => Op::Open,
-                    7 | 8 => Op::CancelForgetNewest,
-                    _ => Op::SnapshotJournal,
+            for _ in 0..rng.range(0, 6) {
+                ops.push(match rng.below(16) {
+                    0..=3 => Op::Submit,
+                    4 | 5 => Op::Open,
+                    6 | 7 => Op::CancelForgetNewest,
+                    8 => Op::SnapshotJournal,
+                    9..=11 => Op::AddQueue,
+                    12 => Op::RemoveNewestQueue,
+                    _ => Op::ConnectWorker,
                 });
             }
             Start { configured_uid, ops, from_snapshot: i > 0 && rng.chance(25, 100) }
@@ -162,21 +171,42 @@ async fn call(s: &mut ClientSession, m: FromClientMessage) -> Result<ToClientMes
     }
 }
 
-/// (uids of all `ServerStart` records, job ids the journal mentions)
-fn journal_facts(path: &Path) -> Result<(Vec<String>, BTreeSet<u32>), String> {
+#[derive(Default)]
+struct Facts {
+    uids: Vec<String>,
+    jobs: BTreeSet<u32>,
+    queues: BTreeSet<u32>,
+    workers: BTreeSet<u32>,
+}
+
+/// uids of all `ServerStart` records and the job / queue / worker ids the journal mentions
+fn journal_facts(path: &Path) -> Result<Facts, String> {
     let events = crate::journal::read_all(path).map_err(|e| format!("{e:?}"))?;
-    let mut uids = Vec::new();
-    let mut jobs = BTreeSet::new();
+    let mut f = Facts::default();
     for e in &events {
         match &e.payload {
-            EventPayload::ServerStart { server_uid } => uids.push(server_uid.clone()),
+            EventPayload::ServerStart { server_uid } => f.uids.push(server_uid.clone()),
             EventPayload::Submit { job_id, .. } | EventPayload::JobOpen(job_id, _) | EventPayload::JobCompleted(job_id) | EventPayload::JobClose(job_id) => {
-                jobs.insert(job_id.as_num());
+                f.jobs.insert(job_id.as_num());
+            }
+            EventPayload::AllocationQueueCreated(q, _) | EventPayload::AllocationQueueRemoved(q) => {
+                f.queues.insert(*q);
+            }
+            EventPayload::WorkerConnected(w, _) | EventPayload::WorkerLost(w, _) => {
+                f.workers.insert(w.as_num());
             }
             _ => {}
         }
     }
-    Ok((uids, jobs))
+    Ok(f)
+}
+
+struct NoLauncher;
+
+impl tako::launcher::TaskLauncher for NoLauncher {
+    fn build_task(&self, _ctx: tako::launcher::TaskBuildContext, _stop: tokio::sync::oneshot::Receiver<tako::launcher::StopReason>) -> tako::Result<tako::launcher::TaskLaunchData> {
+        Err(tako::Error::GenericError("the lab's workers run nothing".into()))
+    }
 }
 
 pub async fn run_case(case: &[Start], tmp: &Path, id: u64) -> Rep {
@@ -190,7 +220,7 @@ pub async fn run_case(case: &[Start], tmp: &Path, id: u64) -> Rep {
     let array = SubmitSpec::Array {
         ids: None,
         entries: None,
-        req: ReqSpec { variants: vec![VariantSpec { n_nodes: 0, min_time_s: 0, entries: vec![] }] },
+        req: ReqSpec { variants: vec![VariantSpec { n_nodes: 0, min_time_s: 0, entries: vec![EntrySpec { resource: "cpus".into(), policy: Policy::Compact, amount: 10_000 }] }] },
         attrs: TaskAttrs { prio: 0, time_limit_s: None, crash: CrashSpec::Max(5) },
     };
     macro_rules! inconclusive {
@@ -208,14 +238,15 @@ pub async fn run_case(case: &[Start], tmp: &Path, id: u64) -> Rep {
             }
         }
         let existed = journal.exists();
-        let (uids_before, jobs_before) = if existed {
+        let before = if existed {
             match journal_facts(&journal) {
                 Ok(f) => f,
                 Err(e) => inconclusive!(format!("journal unreadable before start {k}: {e}")),
             }
         } else {
-            (Vec::new(), BTreeSet::new())
+            Facts::default()
         };
+        let (uids_before, jobs_before) = (&before.uids, &before.jobs);
         let dir = base.join(format!("dir-{k}"));
         std::fs::create_dir_all(&dir).unwrap();
         let srv = start_server(&dir, &journal, st.configured_uid.clone());
@@ -224,8 +255,8 @@ pub async fn run_case(case: &[Start], tmp: &Path, id: u64) -> Rep {
             Err(e) => inconclusive!(format!("start {k}: {e}")),
         };
         rep.c("server_starts", 1);
-        let uid = match call(&mut s, FromClientMessage::ServerInfo).await {
-            Ok(ToClientMessage::ServerInfo(i)) => i.server_uid,
+        let (uid, worker_port) = match call(&mut s, FromClientMessage::ServerInfo).await {
+            Ok(ToClientMessage::ServerInfo(i)) => (i.server_uid, i.worker_port),
             other => inconclusive!(format!("start {k}: server info: {other:?}")),
         };
         if existed {
@@ -256,8 +287,47 @@ pub async fn run_case(case: &[Start], tmp: &Path, id: u64) -> Rep {
             lineage_uid = Some(uid.clone());
         }
         let mut issued: Vec<u32> = Vec::new();
+        let mut queues_issued: Vec<u32> = Vec::new();
+        let mut workers_issued: Vec<u32> = Vec::new();
         for op in &st.ops {
             match op {
+                Op::AddQueue => {
+                    let m = FromClientMessage::AutoAlloc(AutoAllocRequest::AddQueue { parameters: crate::queueids::params(queues_issued.len() as u32 + k as u32), dry_run: false });
+                    match call(&mut s, m).await {
+                        Ok(ToClientMessage::AutoAllocResponse(AutoAllocResponse::QueueCreateResponse(hyperqueue::transfer::messages::QueueCreateResponse::Created(q)))) => {
+                            queues_issued.push(q);
+                            rep.c("queue_ids_issued", 1);
+                        }
+                        other => inconclusive!(format!("start {k}: add queue: {other:?}")),
+                    }
+                }
+                Op::RemoveNewestQueue => {
+                    let Some(q) = queues_issued.last().copied() else { continue };
+                    match call(&mut s, FromClientMessage::AutoAlloc(AutoAllocRequest::RemoveQueue { queue_id: q, force: true })).await {
+                        Ok(ToClientMessage::AutoAllocResponse(AutoAllocResponse::QueueRemoved(_))) => rep.c("newest_queue_removed", 1),
+                        // removed twice
+                        Ok(ToClientMessage::Error(_)) => {}
+                        other => inconclusive!(format!("start {k}: remove queue: {other:?}")),
+                    }
+                }
+                Op::ConnectWorker => {
+                    let spec = WorkerSpec { resources: vec![ResSpec { name: "cpus".into(), kind: ResKind::Range(2) }], group: "g".into(), time_limit_s: None };
+                    let mut cfg = conv::worker_configuration(&spec, 1);
+                    cfg.hostname = "localhost".into();
+                    let addr: std::net::SocketAddr = format!("127.0.0.1:{worker_port}").parse().unwrap();
+                    let stop = std::sync::Arc::new(tokio::sync::Notify::new());
+                    let r = tokio::time::timeout(Duration::from_secs(20), tako::worker::run_worker(vec![addr], cfg, None, |_, _| Box::new(NoLauncher) as Box<dyn tako::launcher::TaskLauncher>, stop)).await;
+                    match r {
+                        Ok(Ok(((wid, _), fut))) => {
+                            workers_issued.push(wid.as_num());
+                            rep.c("worker_ids_issued", 1);
+                            // the worker goes away again at once (connection closed)
+                            drop(fut);
+                        }
+                        Ok(Err(e)) => inconclusive!(format!("start {k}: worker registration failed: {e:?}")),
+                        Err(_) => inconclusive!(format!("start {k}: worker registration took more than 20 s")),
+                    }
+                }
                 Op::Submit => {
                     let m = FromClientMessage::Submit(conv::submit_request(None, None, &array), None);
                     match call(&mut s, m).await {
@@ -315,6 +385,28 @@ pub async fn run_case(case: &[Start], tmp: &Path, id: u64) -> Rep {
                 rep.v("I1-job-id-reuse", format!("start {k} issued job id {j}, which the journal it was started from already mentions ({jobs_before:?})"));
             }
         }
+        for q in &queues_issued {
+            if existed {
+                rep.c("queue_ids_issued_after_restart", 1);
+            }
+            if before.queues.contains(q) {
+                rep.v("I1-queue-id-reuse", format!("start {k} issued queue id {q}, which the journal it was started from already mentions ({:?})", before.queues));
+            }
+        }
+        for w in &workers_issued {
+            if existed {
+                rep.c("worker_ids_issued_after_restart", 1);
+            }
+            if before.workers.contains(w) {
+                rep.v("I1-worker-id-reuse", format!("start {k} gave a connecting worker the id {w}, which the journal it was started from already mentions ({:?})", before.workers));
+            }
+        }
+        for (name, v) in [("queue", &queues_issued), ("worker", &workers_issued)] {
+            let d: BTreeSet<_> = v.iter().collect();
+            if d.len() != v.len() {
+                rep.v(&format!("I1-{name}-id-reuse"), format!("start {k} issued the {name} ids {v:?}"));
+            }
+        }
         let distinct: BTreeSet<_> = issued.iter().collect();
         if distinct.len() != issued.len() {
             rep.v("I1-job-id-reuse", format!("start {k} issued {issued:?}"));
@@ -334,7 +426,7 @@ pub async fn run_case(case: &[Start], tmp: &Path, id: u64) -> Rep {
             }
         }
         match journal_facts(&journal) {
-            Ok((uids, _)) => {
+            Ok(Facts { uids, .. }) => {
                 rep.c("server_start_records_read", uids.len() as u64);
                 if let Some(l) = &lineage_uid {
                     if uids.iter().any(|u| u != l) {
@@ -351,11 +443,11 @@ pub async fn run_case(case: &[Start], tmp: &Path, id: u64) -> Rep {
 
 pub fn params() -> (&'static str, serde_json::Value, Vec<&'static str>) {
     (
-        "real-server lab: 2-4 consecutive starts of the real `init_hq_server` (own thread, sockets on localhost, real journal file and journal thread) on one journal lineage, each with or without a configured server uid (what --access-file does); a real client session reads the server info, submits / opens / cancels+forgets jobs, takes flushed copies of the journal (crash points) and stops the server; the uid reported after every restart, the uid in submit answers and in all ServerStart records must be the lineage's, and every job id issued must be new to the journal the server was started from",
-        json!({"server_starts": 300, "restarts_on_an_existing_journal": 150, "restarts_with_a_configured_uid_that_differs_from_the_journal": 50, "job_ids_issued_after_restart": 100}),
+        "real-server lab: 2-4 consecutive starts of the real `init_hq_server` (own thread, sockets on localhost, real journal file and journal thread) on one journal lineage, each with or without a configured server uid (what --access-file does); a real client session reads the server info, submits / opens / cancels+forgets jobs, creates and removes allocation queues, takes flushed copies of the journal (crash points) and stops the server; real tako workers (`tako::worker::run_worker`) register over TCP and disconnect; the uid reported after every restart, the uid in submit answers and in all ServerStart records must be the lineage's, and every job id, queue id and worker id issued must be new to the journal the server was started from",
+        json!({"server_starts": 200, "restarts_on_an_existing_journal": 100, "restarts_with_a_configured_uid_that_differs_from_the_journal": 40, "job_ids_issued_after_restart": 60, "queue_ids_issued_after_restart": 30, "worker_ids_issued_after_restart": 30}),
         vec![
             "real-server lab: real time and real sockets on localhost; a start, request or stop that does not complete within 20 s makes the case inconclusive, never a violation",
-            "real-server lab: no worker connects and no allocation queue is created (both need external programs), so only the server uid and job ids are judged here; worker and queue ids are judged by the journal and id labs through the restating hooks",
+            "real-server lab: the workers are real tako workers with a launcher that starts nothing, and they disconnect right after registering; queues are created through the real client request, the batch system's programs (sbatch/qsub) do not exist in the sandbox, so no allocation is ever submitted",
         ],
     )
 }
